@@ -55,7 +55,7 @@ def main(tier, seed):
     if d.exists():
         for p in sorted(d.glob("*.json")):
             corpus.append(json.loads(p.read_text()))
-    cases = corpus + [F.gen_scenario(ctx.rng, big=(tier != "quick")) for _ in range(n)]
+    cases = corpus + F.finisher_scenarios() + [F.gen_scenario(ctx.rng, big=(tier != "quick")) for _ in range(n)]
     cases += [F.gen_netfix(ctx.rng) for _ in range(max(6, n // 12))]
     for i, c in enumerate(cases):
         c["id"] = i
